@@ -49,7 +49,8 @@ type half struct {
 
 	rdeadline time.Time
 	wdeadline time.Time
-	rscale    int // >1: read deadlines expire this many times sooner
+	rscale    int  // >1: read deadlines expire this many times sooner
+	tempOnce  bool // the next Read fails once with a temporary, non-timeout net.Error
 	opts      Options
 	gen       int // bumped by deadline changes to wake sleepers
 }
@@ -105,6 +106,10 @@ func (h *half) read(p []byte) (int, error) {
 		}
 		if h.failReadAt >= 0 && h.nread >= h.failReadAt {
 			return 0, h.readErr
+		}
+		if h.tempOnce {
+			h.tempOnce = false
+			return 0, tempError{}
 		}
 		if len(h.buf) > 0 {
 			n := len(p)
@@ -259,6 +264,21 @@ func (e *End) SetDeadline(t time.Time) error {
 	e.SetReadDeadline(t)
 	e.SetWriteDeadline(t)
 	return nil
+}
+
+type tempError struct{}
+
+func (tempError) Error() string   { return "memconn: resource temporarily unavailable" }
+func (tempError) Timeout() bool   { return false }
+func (tempError) Temporary() bool { return true }
+
+// TempReadErrOnce makes the next Read on this end (also one that is already waiting) fail once
+// with a net.Error that is temporary but not a timeout; nothing is lost, the following Read works.
+func (e *End) TempReadErrOnce() {
+	e.in.mu.Lock()
+	e.in.tempOnce = true
+	e.in.cond.Broadcast()
+	e.in.mu.Unlock()
 }
 
 // ScaleReadDeadlines makes every read deadline set from now on expire k times sooner
